@@ -74,7 +74,7 @@ PROPS = {
  "C02": dict(tie=tie("XMSS_KEY", extra=["xmss_XMSSFastGenKeyPair"]), assumptions=COMMON_ASSUME),
  "C03": dict(tie=tie("DIL_SIGN", "DIL_VERIFY", "DIL_PACK", "DIL_VEC", "DIL_POLY", "DIL_SAMPLE"), assumptions=COMMON_ASSUME + ["termination of the XOF-driven rejection loop is not provable; theorems are of the form 'if sign returns then …'"]),
  "C04": dict(tie=tie("XMSS_VERIFY", "XMSS_HASH", "XMSS_WOTS", "DESC"), assumptions=COMMON_ASSUME + ["that a flipped bit is rejected is a collision-resistance statement; it is covered by exhaustive single-bit-flip runs on the real code (tests, labelled as such)"]),
- "C05": dict(tie=tie("DIL_VERIFY", "DIL_PACK", "DIL_POLY", "DIL_VEC", "DIL_SAMPLE"), assumptions=COMMON_ASSUME),
+ "C05": dict(tie=tie("DIL_VERIFY", "DIL_PACK", "DIL_POLY", "DIL_VEC", "DIL_SAMPLE"), allow_bv_decide=True, assumptions=COMMON_ASSUME),
  "C06": dict(tie=tie("XMSS_HASH", "XMSS_WOTS", "XMSS_BDS", "XMSS_KEY", "XMSS_VERIFY"), timeout={"quick": 1500, "thorough": 7200}, assumptions=COMMON_ASSUME),
  "C07": dict(tie=tie("DIL_SIGN", "DIL_SAMPLE", "DIL_VEC", "DIL_POLY", "DIL_PACK", "DIL_SCALAR"), assumptions=COMMON_ASSUME),
  "C08": dict(tie=tie("XMSS_KEY", "XMSS_BDS"), timeout={"quick": 1500, "thorough": 7200}, assumptions=COMMON_ASSUME),
@@ -84,6 +84,6 @@ PROPS = {
  "C12": dict(tie=tie("DIL_POLY", "DIL_SCALAR"), allow_bv_decide=True, assumptions=COMMON_ASSUME),
  "C13": dict(tie=tie("DIL_PACK"), allow_bv_decide=True, assumptions=COMMON_ASSUME + ["bv_decide (CaDiCaL + verified LRAT checker, native evaluation) is accepted for the bit-lane identities only; its axioms are listed under coverage.axioms_by_theorem"]),
  "C14": dict(tie=tie("XMSS_VERIFY", "ADDR", "DESC", "MNEMONIC", "DIL_VERIFY", extra=["dilithium_unpackSig"]), assumptions=COMMON_ASSUME + ["'no Go runtime.Error' and 'inputs unmodified' are runtime facts: the model shows every access it makes is in range, the harness checks panic types and input buffers on every malformed call"]),
- "C15": dict(tie=[], assumptions=COMMON_ASSUME + ["Go memory model, race-freedom of x/crypto/sha3, hex, fmt on distinct objects are not modelled (partial)"]),
+ "C15": dict(tie=[], race=True, assumptions=COMMON_ASSUME + ["Go memory model, race-freedom of x/crypto/sha3, hex, fmt on distinct objects are not modelled (partial)"]),
  "C16": dict(tie=tie("JS"), assumptions=COMMON_ASSUME + ["GopherJS object glue is not modelled; only the pure string wrappers are"]),
 }
